@@ -280,7 +280,12 @@ def main(argv=None):
     except BaseException as e:  # harness failure of any kind
         tb = "".join(traceback.format_exception(type(e), e, e.__traceback__))
         tb = "\n".join(l if len(l) < 400 else l[:400] + " ...[cut]" for l in tb.splitlines())
-        report["harness_error"] = tb if len(tb) < 8000 else tb[:2500] + "\n...\n" + tb[-3500:]
+        if os.environ.get("PV_WORKER_TB"):
+            with open(os.environ["PV_WORKER_TB"], "a") as fh:
+                fh.write("".join(traceback.format_exception(type(e), e, e.__traceback__)) + "\n=====\n")
+        # (the middle of a long traceback is the printed falsifying example; the exception itself is at the end)
+        last = f"{type(e).__name__}: {str(e)[:1200]}"
+        report["harness_error"] = (tb if len(tb) < 8000 else tb[:2000] + "\n...\n" + tb[-3000:]) + "\nEXCEPTION: " + last
     finally:
         os.chdir(cwd0)
         shutil.rmtree(scratch, ignore_errors=True)
